@@ -35,71 +35,78 @@ theorem just_new {strict : Bool} {tr : List Obs} (e : Obs) (hu : isUp tr = true)
 
 /-! ## what `perform` does to the fields the trace invariant talks about -/
 
-@[simp] theorem perform_link (s : State) (t : Trans) : (perform s t).1.link = s.link := by
+@[simp] theorem perform_selected (s : State) (t : Trans) : (perform s t).1.selected = s.selected := by
   rw [perform_eq]
-  obtain ⟨c, l, a, b, n, m, q⟩ := s
+  obtain ⟨c, cn, l, a, b, n, m, q⟩ := s
+  cases c <;> cases t <;> simp [allowed, leaveEffects_eq, enterEffects_eq]
+
+@[simp] theorem perform_connected (s : State) (t : Trans) : (perform s t).1.connected = s.connected := by
+  rw [perform_eq]
+  obtain ⟨c, cn, l, a, b, n, m, q⟩ := s
   cases c <;> cases t <;> simp [allowed, leaveEffects_eq, enterEffects_eq]
 
 theorem perform_comm (s : State) (t : Trans) :
     (perform s t).1.comm = (match allowed t s.comm with | some d => d | none => s.comm) := by
   rw [perform_eq]
-  obtain ⟨c, l, a, b, n, m, q⟩ := s
+  obtain ⟨c, cn, l, a, b, n, m, q⟩ := s
   cases c <;> cases t <;> simp [allowed, leaveEffects_eq, enterEffects_eq]
 
 /-- either nothing about system bytes changes and no S1F13 is written, or a new S1F13 `k` becomes the outstanding one and is
-written (link up) or queued (link down) -/
+written (connected) or queued (no connection) -/
 def SysOk (s s' : State) (o : List Output) : Prop :=
   (s'.mySys = s.mySys ∧ s'.queued = s.queued ∧ s1f13Ids o = []) ∨
-  (∃ k, s'.mySys = some k ∧ ((s.link = true ∧ s1f13Ids o = [k] ∧ s'.queued = s.queued) ∨
-                              (s.link = false ∧ s1f13Ids o = [] ∧ s'.queued = s.queued ++ [k])))
+  (∃ k, s'.mySys = some k ∧ ((s.connected = true ∧ s1f13Ids o = [k] ∧ s'.queued = s.queued) ∨
+                              (s.connected = false ∧ s1f13Ids o = [] ∧ s'.queued = s.queued ++ [k])))
 
 theorem perform_sys (s : State) (t : Trans) : SysOk s (perform s t).1 (perform s t).2 := by
   rw [perform_eq]
-  obtain ⟨c, l, a, b, n, m, q⟩ := s
-  cases c <;> cases t <;> cases l <;> simp [SysOk, allowed, leaveEffects_eq, enterEffects_eq, sendS1F13, s1f13Ids]
+  obtain ⟨c, cn, l, a, b, n, m, q⟩ := s
+  cases c <;> cases t <;> cases cn <;> simp [SysOk, allowed, leaveEffects_eq, enterEffects_eq, sendS1F13, s1f13Ids]
 
 /-! ## the trace invariant -/
 
 structure TInv (cfg : Cfg) (s : State) (tr : List Obs) : Prop where
-  link : s.link = isUp tr
-  /-- with the system-bytes check: the outstanding S1F13 was written on this link … -/
-  myUp : cfg.sysChecked = true → s.link = true → ∀ k, s.mySys = some k → k ∈ onLink tr
-  /-- … or sits in the send queue while the link is down -/
-  myDown : cfg.sysChecked = true → s.link = false → ∀ k, s.mySys = some k → k ∈ s.queued
+  conn : s.connected = isConn tr
+  link : s.selected = isUp tr
+  /-- with the system-bytes check: the outstanding S1F13 was written on this connection … -/
+  myUp : cfg.sysChecked = true → s.connected = true → ∀ k, s.mySys = some k → k ∈ onLink tr
+  /-- … or sits in the send queue while there is no connection -/
+  myDown : cfg.sysChecked = true → s.connected = false → ∀ k, s.mySys = some k → k ∈ s.queued
   just : s.comm = .communicating → Justified cfg.sysChecked tr
 
 theorem tinv_init (cfg : Cfg) : TInv cfg init [] := by
-  constructor <;> simp [init, isUp, onLink, linkState]
+  constructor <;> simp [init, isConn, isUp, onLink, linkState]
 
-/-- a step that neither selects nor loses the link, described by `SysOk` -/
+/-- a step that neither connects, selects nor loses the link, described by `SysOk` -/
 theorem tinv_plain (cfg : Cfg) (s s' : State) (tr : List Obs) (i : Input) (o : List Output) (h : TInv cfg s tr)
-    (hi1 : i ≠ .linkSelected) (hi2 : i ≠ .linkLost)
-    (hl : s'.link = s.link) (hs : SysOk s s' o)
+    (hi0 : i ≠ .linkConnected) (hi1 : i ≠ .linkSelected) (hi2 : i ≠ .linkLost)
+    (hc : s'.connected = s.connected) (hl : s'.selected = s.selected) (hs : SysOk s s' o)
     (hj : s'.comm = .communicating → Justified cfg.sysChecked (tr ++ [⟨i, o⟩])) : TInv cfg s' (tr ++ [⟨i, o⟩]) := by
-  have hst : linkState (tr ++ [⟨i, o⟩]) = ((linkState tr).1, if (linkState tr).1 then (linkState tr).2 ++ s1f13Ids o else (linkState tr).2) := by
+  have hst : linkState (tr ++ [⟨i, o⟩]) = { linkState tr with ids := if (linkState tr).connected then (linkState tr).ids ++ s1f13Ids o else (linkState tr).ids } := by
     rw [linkState_snoc]; cases i <;> simp_all [obsStep]
-  have hup : isUp tr = s.link := h.link.symm
-  refine ⟨?_, ?_, ?_, hj⟩
+  have hcn : isConn tr = s.connected := h.conn.symm
+  refine ⟨?_, ?_, ?_, ?_, hj⟩
+  · simp [isConn, hst, hc]; exact h.conn
   · simp [isUp, hst, hl]; exact h.link
-  · intro hc hl' k hk
-    rw [hl] at hl'
-    have hu : (linkState tr).1 = true := by simpa [isUp] using hup.trans hl'
+  · intro hck hl' k hk
+    rw [hc] at hl'
+    have hu : (linkState tr).connected = true := by simpa [isConn] using hcn.trans hl'
     simp only [onLink, hst, hu, if_true]
     rcases hs with ⟨h1, _, _⟩ | ⟨k', h1, ⟨_, h3, _⟩ | ⟨h2, _, _⟩⟩
-    · exact List.mem_append_left _ (h.myUp hc hl' k (h1 ▸ hk))
+    · exact List.mem_append_left _ (h.myUp hck hl' k (h1 ▸ hk))
     · rw [h1] at hk; cases hk; simp [h3]
     · simp [hl'] at h2
-  · intro hc hl' k hk
-    rw [hl] at hl'
+  · intro hck hl' k hk
+    rw [hc] at hl'
     rcases hs with ⟨h1, h2, _⟩ | ⟨k', h1, ⟨h2, _, _⟩ | ⟨_, _, h4⟩⟩
-    · rw [h2]; exact h.myDown hc hl' k (h1 ▸ hk)
+    · rw [h2]; exact h.myDown hck hl' k (h1 ▸ hk)
     · simp [hl'] at h2
     · rw [h1] at hk; cases hk; simp [h4]
 
 theorem perform_comm_stays (s : State) (t : Trans) (h1 : t ≠ .s1f14received) (h2 : t ≠ .s1f13received)
     (h : (perform s t).1.comm = .communicating) : s.comm = .communicating ∧ t ≠ .disable ∧ t ≠ .communicationfail := by
   rw [perform_comm] at h
-  obtain ⟨c, l, a, b, n, m, q⟩ := s
+  obtain ⟨c, cn, l, a, b, n, m, q⟩ := s
   cases c <;> cases t <;> simp_all [allowed]
 
 theorem sysOk_refl (s : State) : SysOk s s [] := Or.inl ⟨rfl, rfl, rfl⟩
@@ -312,7 +319,7 @@ theorem perform_outputs (s : State) (t : Trans) (o : Output) (h : o ∈ (perform
     o = .wrongSource t ∨ (∃ k, o = .txS1F13 k) ∨ o = .blocked ∨
     (o = .evtCommunicating ∧ (perform s t).1.comm = .communicating ∧ s.comm ≠ .communicating) := by
   rw [perform_eq] at h ⊢
-  obtain ⟨c, l, a, b, n, m, q⟩ := s
+  obtain ⟨c, cn, l, a, b, n, m, q⟩ := s
   cases c <;> cases t <;> cases l <;>
     simp_all [allowed, leaveEffects_eq, enterEffects_eq, sendS1F13]
 
